@@ -1038,13 +1038,13 @@ namespace ipr::impl {
 
          template<class T>
          int operator()(const impl::Basic_unary<T>& lhs,
-                        const typename ipr::Basic_unary<T>::Arg_type& rhs) const
+                        const typename impl::Basic_unary<T>::Arg_type& rhs) const
          {
             return impl::compare(lhs.rep, rhs);
          }
 
          template<class T>
-         int operator()(const typename ipr::Basic_unary<T>::Arg_type& lhs,
+         int operator()(const typename impl::Basic_unary<T>::Arg_type& lhs,
                         const impl::Basic_unary<T>& rhs) const
          {
             return impl::compare(lhs, rhs.rep);
